@@ -94,7 +94,7 @@ def gen(rng, knobs):
     return {"backend": backend, "clients": clients, "preload": pre, "subscription_limit": limit,
             "p_buffered": rng.choice([0.0, 0.0, 0.3, 0.8]),
             "faults": sorted(rng.sample(range(3, 90), rng.choice([1, 2]))) if (backend == "sql" and rng.random() < 0.2) else [],
-            "sched": {"client": rng.choice([0.5, 1.0, 3.0]), "sql": rng.choice([0.3, 1.0, 3.0]),
+            "sched": {**histgen.stall_knob(rng), "client": rng.choice([0.5, 1.0, 3.0]), "sql": rng.choice([0.3, 1.0, 3.0]),
                       "pool": rng.choice([0.3, 1.0, 3.0]), "writer": rng.choice([0.2, 1.0, 3.0]),
                       "wsend": rng.choice([0.2, 1.0]), "ready": rng.choice([1.0, 4.0, 8.0])}}
 
@@ -163,6 +163,7 @@ def check_client(c, world, case, ev_times, ev_done, submissions, quiet_points, v
         return [s for s in notices if fr["t_deliver"] <= s <= hi]
 
     alive_at_quiet = world.final.get("alive", {}).get(c.idx, False)
+    in_flight = 1 if getattr(c, "slow", False) else 0
     for sid, frs in by_id.items():
         req_frs = [f for f in frs if f["msg"][0] == "REQ"]
         if not req_frs:
@@ -210,9 +211,10 @@ def check_client(c, world, case, ev_times, ev_done, submissions, quiet_points, v
                 late = [seq for seq, eid in event_by_id.get(sid, []) if end_t < seq < nxt_req]
                 if late:
                     probes["event_frames_sent_after_close_handled"] += len(late)
-                if len(late) > 1:
-                    # the one frame the sender had already taken from the queue may still go out; what was
-                    # queued behind it for the closed subscription must not
+                if len(late) > in_flight:
+                    # the one frame the sender had already taken from the queue may still go out (only a slow
+                    # reader keeps the sender waiting inside a send); what was queued behind it for the closed
+                    # subscription must not
                     viol.append({"cls": "delivery-after-close", "sig": "delivery-after-close|%s|backlog" % backend,
                                  "detail": {"sub": sid, "frames_after_close_was_handled": len(late)}})
                 for seq, eid in event_by_id.get(sid, []):
@@ -251,7 +253,7 @@ def check_client(c, world, case, ev_times, ev_done, submissions, quiet_points, v
             alien = [E.get("id", "")[:8] for seq, E in frame_events.get(sid, [])
                      if fr["t_done"] < seq < hi and model.wellformed(E)
                      and not any(model.matches(E, f, "inclusive", bare_as_empty=True) for f in fl)]
-            if len(alien) > 1:
+            if len(alien) > in_flight:
                 viol.append({"cls": "leftovers-of-replaced-subscription",
                              "sig": "leftovers-of-replaced-subscription|%s" % backend,
                              "detail": {"sub": sid, "current_req": fr["msg"][:4], "events": alien[:5]}})
